@@ -110,4 +110,23 @@ PROPS = {
         'crosscheck_functions': [],
         'bounded': ['contracts.rawx12file:bounded_tokenise'],
     },
+    'C05': {
+        'level': 'proof',
+        'functions': [],
+        'crosscheck_functions': [],
+        'bounded': ['contracts.pipeline:bounded_pipeline_c05'],
+    },
+    'C06': {
+        'level': 'proof',
+        'functions': [],
+        'crosscheck_functions': [],
+        'bounded': ['contracts.pipeline:bounded_pipeline_c06'],
+    },
+    'C07': {
+        'level': 'proof',
+        'functions': ['pyx12.x12file.X12Reader.__iter__', 'pyx12.x12file.X12Base._parse_segment', 'pyx12.x12file.X12Reader._parse_segment',
+                      'pyx12.x12file.X12Reader.cleanup', 'pyx12.validation.IsValidDataType', 'pyx12.map_if.element_if.is_valid'],
+        'crosscheck_functions': [],
+        'bounded': ['contracts.pipeline:bounded_pipeline_c07'],
+    },
 }
